@@ -27,4 +27,102 @@ theorem enter_append (g : Globals) (p : List (Fin 3 × Nat)) (i : Fin 3) (a : Na
   | nil => rfl
   | cons x p ih => obtain ⟨j, b⟩ := x; simp only [List.cons_append, enter]; exact ih _
 
+/-- A *history*: top-level programs run one after another, each caught by the caller
+    (`try: p except BaseException: pass`); the worlds after each of them, in order. -/
+def historyStates (M : Managers) : List (List Cmd) → World → List World
+  | [], _ => []
+  | p :: ps, w => (runCmds M p w).1 :: historyStates M ps (runCmds M p w).1
+
+/-- The world at the end of a history. -/
+def runHistory (M : Managers) : List (List Cmd) → World → World
+  | [], w => w
+  | p :: ps, w => runHistory M ps (runCmds M p w).1
+
+/-- A history is the program `try: p₁ …; try: p₂ …; …` of the command language the driver runs. -/
+theorem runHistory_eq_tryC (M : Managers) :
+    (ps : List (List Cmd)) → (w : World) → runCmds M (ps.map .tryC) w = (runHistory M ps w, .ok)
+  | [], _ => rfl
+  | p :: ps, w => by
+    simp only [List.map, runCmds, runCmd, runHistory]
+    exact runHistory_eq_tryC M ps _
+
+theorem historyStates_getLast (M : Managers) :
+    (ps : List (List Cmd)) → (w : World) → (historyStates M ps w).getLast? = if ps = [] then none else some (runHistory M ps w)
+  | [], _ => rfl
+  | [p], w => rfl
+  | p :: q :: ps, w => by
+    have ih := historyStates_getLast M (q :: ps) (runCmds M p w).1
+    simp only [historyStates, runHistory, List.getLast?_cons_cons] at ih ⊢
+    simpa using ih
+
+/-! ### The older `Block` histories as `Cmd` programs (the fragment without raising bodies: `runBlock` takes its
+    snapshot after a block exit also on the way out of an exception, which no `Cmd` program does) -/
+
+mutual
+def blockNoRaise : Block → Bool
+  | .withB _ _ inner raises => !raises && blocksNoRaise inner
+def blocksNoRaise : List Block → Bool
+  | [] => true
+  | b :: bs => blockNoRaise b && blocksNoRaise bs
+end
+
+mutual
+def blockCmd : Block → Cmd
+  | .withB which arg inner _ => .withC which arg (.snap :: blocksCmds inner)
+/-- every block is followed by the snapshot `runBlock` takes after its exit -/
+def blocksCmds : List Block → List Cmd
+  | [] => []
+  | b :: bs => blockCmd b :: .snap :: blocksCmds bs
+end
+
+theorem runCmds_snap_cons (M : Managers) (cs : List Cmd) (w : World) :
+    runCmds M (.snap :: cs) w = runCmds M cs w.snap := by
+  simp only [runCmds, runCmd]
+
+mutual
+theorem runBlock_as_cmd (M : Managers) (hM : M.Good) :
+    (b : Block) → (w : World) → blockNoRaise b = true →
+      runBlock M b w = ((runCmd M (blockCmd b) w).1.snap, .ok) ∧ (runCmd M (blockCmd b) w).2 = .ok
+  | .withB which arg inner raises, w, h => by
+    simp only [blockNoRaise, Bool.and_eq_true, Bool.not_eq_true'] at h
+    obtain ⟨hr, hin⟩ := h
+    subst hr
+    have hok : (runCmd M (blockCmd (.withB which arg inner false)) w).2 = .ok := by
+      simp only [blockCmd, runCmd, exec_good_eq _ (hM which), runCmds_snap_cons]
+      rw [← (runBlocks_as_cmds M hM inner _ hin).1]
+      exact (runBlocks_as_cmds M hM inner _ hin).2
+    refine ⟨?_, hok⟩
+    rw [← hok]
+    simp only [runBlock, blockCmd, runCmd]
+    have key : ∀ f g : World → World × Outcome, f = g →
+        ((exec which arg f (M.ir which) ⟨w, 0⟩).1.world.snap, (exec which arg f (M.ir which) ⟨w, 0⟩).2) =
+        ((exec which arg g (M.ir which) ⟨w, 0⟩).1.world.snap, (exec which arg g (M.ir which) ⟨w, 0⟩).2) := by
+      intro f g h; rw [h]
+    apply key
+    funext w'
+    rw [runCmds_snap_cons, ← (runBlocks_as_cmds M hM inner w'.snap hin).1]
+    generalize runBlocks M inner w'.snap = r
+    obtain ⟨w'', o⟩ := r
+    cases o <;> rfl
+theorem runBlocks_as_cmds (M : Managers) (hM : M.Good) :
+    (bs : List Block) → (w : World) → blocksNoRaise bs = true →
+      runBlocks M bs w = runCmds M (blocksCmds bs) w ∧ (runBlocks M bs w).2 = .ok
+  | [], _, _ => ⟨rfl, rfl⟩
+  | b :: bs, w, h => by
+    simp only [blocksNoRaise, Bool.and_eq_true] at h
+    obtain ⟨h1, h2⟩ := runBlock_as_cmd M hM b w h.1
+    have ih := runBlocks_as_cmds M hM bs (runCmd M (blockCmd b) w).1.snap h.2
+    simp only [runBlocks, blocksCmds, runCmds, h1]
+    generalize runCmd M (blockCmd b) w = r at h2 ih ⊢
+    obtain ⟨w1, o⟩ := r
+    simp only at h2
+    subst h2
+    simpa [runCmd] using ih
+end
+
+theorem blocksCmds_noSet (j : Fin 3) : (bs : List Block) → cmdsSets j (blocksCmds bs) = false
+  | [] => rfl
+  | .withB which arg inner raises :: bs => by
+    simp [blocksCmds, blockCmd, cmdsSets, cmdSets, blocksCmds_noSet j inner, blocksCmds_noSet j bs]
+
 end Ctx
